@@ -75,6 +75,9 @@ def register(db):
     register_acceptance_3(db)
     register_acceptance_4(db)
     register_acceptance_5(db)
+    register_acceptance_6(db)
+    register_from_string_acceptance(db)
+    register_period_acceptance(db)
     FROM = [
         ("XmlDate", ["valid_date(result.year, result.month, result.day)"]),
         ("XmlTime", ["valid_time(result.hour, result.minute, result.second, result.fractional_second)"]),
@@ -150,7 +153,7 @@ def register_acceptance(db):
         requires=["0 <= k", "k <= 99"] + HERE + ["tok == pad(k, 2)"],
         hints=["substr_at(self.value, head, tok, rest)", "int_of_digits(tok)"],
         ensures=[("component-value", "result == k"), ("consumes-the-token", "self.vidx == len(head) + 2")] + KEEP,
-        raises={}, modifies=["self.vidx"], properties=PR,
+        raises={}, returns="int", modifies=["self.vidx"], properties=PR,
     ))
     db.add(Contract(
         f"{P}.skip", variant="accepts-the-separator",
@@ -171,7 +174,7 @@ def register_acceptance_2(db):
         f"{P}.parse_offset", variant="accepts-no-timezone",
         params={"self": parser}, requires=WF + ["self.vidx == self.vlen"],
         ensures=[("absent", "result is None"), ("cursor-stays", "self.vidx == old(self.vidx)")] + KEEP,
-        raises={}, modifies=["self.vidx"], properties=PR,
+        raises={}, returns="int|None", modifies=["self.vidx"], properties=PR,
     ))
     db.add(Contract(
         f"{P}.parse_offset", variant="accepts-Z",
@@ -179,7 +182,7 @@ def register_acceptance_2(db):
         requires=HERE + ["self.value == head + 'Z' + rest"],
         hints=["substr_at(self.value, head, 'Z', rest)"],
         ensures=[("utc", "result == 0"), ("consumes-the-token", "self.vidx == len(head) + 1")] + KEEP,
-        raises={}, modifies=["self.vidx"], properties=PR,
+        raises={}, returns="int|None", modifies=["self.vidx"], properties=PR,
     ))
     for name, sign, factor in (("plus", "+", 1), ("minus", "-", -1)):
         db.add(Contract(
@@ -193,7 +196,7 @@ def register_acceptance_2(db):
                    "int_of_digits(pad(hh, 2))", "int_of_digits(pad(mm, 2))"],
             ensures=[("offset-in-minutes", f"result == {factor} * (60 * hh + mm)"),
                      ("consumes-the-token", "self.vidx == len(head) + 6")] + KEEP,
-            raises={}, modifies=["self.vidx"], properties=PR,
+            raises={}, returns="int|None", modifies=["self.vidx"], properties=PR,
         ))
 
 
@@ -210,7 +213,7 @@ def register_acceptance_3(db):
         ghost={"head": "str", "rest": "str", "k": "int"},
         requires=["0 <= k", "k <= 9999"] + HERE + ["self.value == head + pad(k, 4) + rest", NOT_DIGIT],
         hints=["substr_at(self.value, head, pad(k, 4), rest)", "int_of_digits(pad(k, 4))", "substr_at(self.value, head + pad(k, 4), rest[0:1], rest[1:])",
-               "rest == rest[0:1] + rest[1:]"],
+               "split_first(rest)"],
         ensures=[("component-value", "result == k"), ("consumes-exactly-the-digits", "self.vidx == len(head) + 4")] + KEEP,
         raises={}, returns="int", modifies=["self.vidx"],
         loops=[Loop(invariants=["self.vidx == start + 4", "self.vlen == len(self.value)", "start == len(head)"],
@@ -230,7 +233,7 @@ def register_acceptance_4(db):
         requires=["0 <= k", "k <= 9999"] + HERE + ["self.value == head + pad(k, 4) + rest", NOT_DIGIT],
         hints=["substr_at(self.value, head, pad(k, 4), rest)", "head_of(pad(k, 4), rest)", "digits_only(pad(k, 4), '-')",
                "leading_zeros(pad(k, 4), 4)", "char_at(self.value, head, pad(k, 4)[0:1], pad(k, 4)[1:] + rest)",
-               "pad(k, 4) == pad(k, 4)[0:1] + pad(k, 4)[1:]"],
+               "split_first(pad(k, 4))"],
         call_variants={PMD: [("accepts-four-digits", {"head": "head", "rest": "rest", "k": "k"})]},
         ensures=[("component-value", "result == k"), ("consumes-exactly-the-year", "self.vidx == len(head) + 4")] + KEEP,
         raises={}, returns="int", modifies=["self.vidx"], properties=PR,
@@ -264,9 +267,197 @@ def register_acceptance_5(db):
             requires=["0 <= k", f"k < {10 ** n}"] + HERE + [f"self.value == head + {tok} + rest"] + ([NOT_DIGIT] if n < 9 else []),
             hints=[f"substr_at(self.value, head, {tok}, rest)", f"digit_chars({tok}, {n})", f"nat_shift({tok}, {9 - n})",
                    f"int_of_digits({tok} + '{'0' * (9 - n)}')",
-                   f"substr_at(self.value, head + {tok}, rest[0:1], rest[1:])", "rest == rest[0:1] + rest[1:]"] + chars,
+                   f"substr_at(self.value, head + {tok}, rest[0:1], rest[1:])", "split_first(rest)"] + chars,
             ensures=[("nanoseconds", f"result == k * {10 ** (9 - n)}"), ("consumes-exactly-the-digits", f"self.vidx == len(head) + {n}")] + KEEP,
             raises={}, returns="int", modifies=["self.vidx"],
             loops=[Loop(unroll=True, header="max_digits and self.has_more() and self.peek().isdigit()")],
             properties=PR,
         ))
+
+
+def register_acceptance_6(db):
+    """parse_fractional_second: no '.' -> 0 and the cursor stays; '.' + 1..9 digits -> nanoseconds."""
+    PR = ["C06"]
+    HERE = ["self.vidx == len(head)"] + WF
+    NOT_DIGIT = "(len(rest) == 0 or rest[0:1] < '0' or ('9' < rest[0:1] and rest[0:1] <= '\\x7f'))"
+    PFS = f"{P}.parse_fractional_second"
+    PFD = f"{P}.parse_fixed_digits"
+    db.add(Contract(
+        PFS, variant="accepts-no-fraction",
+        params={"self": parser}, ghost={"head": "str", "rest": "str"},
+        requires=HERE + ["self.value == head + rest", "rest[0:1] != '.'"],
+        hints=["substr_at(self.value, head, rest[0:1], rest[1:])", "split_first(rest)"],
+        ensures=[("no-fraction-is-zero", "result == 0"), ("cursor-stays", "self.vidx == old(self.vidx)")] + KEEP,
+        raises={}, returns="int", modifies=["self.vidx"], properties=PR,
+    ))
+    for n in range(1, 10):
+        tok = f"pad(k, {n})"
+        db.add(Contract(
+            PFS, variant=f"accepts-{n}-digits",
+            params={"self": parser}, ghost={"head": "str", "rest": "str", "k": "int"},
+            requires=["0 <= k", f"k < {10 ** n}"] + HERE + [f"self.value == head + '.' + {tok} + rest"] + ([NOT_DIGIT] if n < 9 else []),
+            hints=[f"substr_at(self.value, head, '.', {tok} + rest)"],
+            call_variants={PFD: [(f"accepts-{n}-digits", {"head": "head + '.'", "rest": "rest", "k": "k"})]},
+            ensures=[("nanoseconds", f"result == k * {10 ** (9 - n)}"), ("consumes-the-fraction", f"self.vidx == len(head) + {n + 1}")] + KEEP,
+            raises={}, returns="int", modifies=["self.vidx"], properties=PR,
+        ))
+
+
+# ---------------------------------------------------------------------------------------------------------------
+# from_string: every XSD lexical form is accepted with the components XSD assigns
+# ---------------------------------------------------------------------------------------------------------------
+WS = "[ \\t\\n\\r]*"
+TZ = {
+    # name: (pieces, ghosts, post-condition on result.offset, parse_offset variant, extra ghost bindings)
+    "no-timezone": ([], [], "result.offset is None", "accepts-no-timezone", {}),
+    "utc": (["'Z'"], [], "result.offset == 0", "accepts-Z", {}),
+    "plus-offset": (["'+'", "pad(hh, 2)", "':'", "pad(mm, 2)"], ["hh", "mm"], "result.offset == 60 * hh + mm", "accepts-plus-hh-mm", {"hh": "hh", "mm": "mm"}),
+    "minus-offset": (["'-'", "pad(hh, 2)", "':'", "pad(mm, 2)"], ["hh", "mm"], "result.offset == -(60 * hh + mm)", "accepts-minus-hh-mm", {"hh": "hh", "mm": "mm"}),
+}
+
+
+def _cat(pieces):
+    return " + ".join(pieces) if pieces else "''"
+
+
+def lexical_form(tokens):
+    """tokens: list of (kind, ...) describing one lexical shape.  Returns what a from_string acceptance contract
+    needs: the core expression, ghosts, ranges, the call plan for the scanner leaves, digit tokens at both ends."""
+    groups = []  # (token, [pieces])
+    for tok in tokens:
+        kind = tok[0]
+        if kind == "d2":
+            groups.append((tok, [f"pad({tok[1]}, 2)"]))
+        elif kind == "sep":
+            groups.append((tok, [repr(tok[1])]))
+        elif kind == "year":
+            groups.append((tok, (["'-'"] if tok[1] == "negative" else []) + ["pad(Y, 4)"]))
+        elif kind == "frac":
+            groups.append((tok, ["'.'", f"pad(k, {tok[1]})"] if tok[1] else []))
+        elif kind == "tz":
+            groups.append((tok, list(TZ[tok[1]][0])))
+    flat = [p for _, ps in groups for p in ps]
+    ghost, ranges, plan = {}, [], {}
+    PD, SK, PFS, PO, PY = (f"{P}.parse_digits", f"{P}.skip", f"{P}.parse_fractional_second", f"{P}.parse_offset", f"{P}.parse_year")
+    pos = 0
+    for tok, ps in groups:
+        head, rest = _cat(flat[:pos]), _cat(flat[pos + len(ps):])
+        kind = tok[0]
+        if kind == "d2":
+            ghost[tok[1]] = "int"
+            plan.setdefault(PD, []).append(("accepts-two-digits", {"head": head, "tok": ps[0], "rest": rest, "k": tok[1]}))
+        elif kind == "sep":
+            plan.setdefault(SK, []).append(("accepts-the-separator", {"head": head, "rest": rest}))
+        elif kind == "year":
+            ghost["Y"] = "int"
+            ranges += ["0 <= Y", "Y <= 9999"]
+            plan.setdefault(PY, []).append((f"accepts-{'negative-' if tok[1] == 'negative' else ''}four-digit-year", {"head": head, "rest": rest, "k": "Y"}))
+        elif kind == "frac":
+            if tok[1]:
+                ghost["k"] = "int"
+                ranges += ["0 <= k", f"k < {10 ** tok[1]}"]
+                plan.setdefault(PFS, []).append((f"accepts-{tok[1]}-digits", {"head": head, "rest": rest, "k": "k"}))
+            else:
+                plan.setdefault(PFS, []).append(("accepts-no-fraction", {"head": head, "rest": rest}))
+        elif kind == "tz":
+            _, gs, _, variant, bind = TZ[tok[1]]
+            for g in gs:
+                ghost[g] = "int"
+                ranges += [f"0 <= {g}", f"{g} <= 99"]
+            b = dict(bind)
+            if variant != "accepts-no-timezone":
+                b.update(head=head, rest=rest)
+            plan.setdefault(PO, []).append((variant, b))
+        pos += len(ps)
+    core = _cat(flat)
+    hints = [f"strip_core(string, w1, '{WS}', w2, {core})", f"strip_noop({core})"]
+    # first / last character of the core are not whitespace: they are digits, '-' or 'Z'
+    first, last = flat[0], flat[-1]
+    hints.append(f"head_of({first}, {_cat(flat[1:])})")
+    if first.startswith("pad("):
+        hints.append(f"digit_chars({first}, {int(first.rsplit(',', 1)[1].strip(' )'))})")
+    if len(flat) > 1:
+        hints.append(f"last_of({_cat(flat[:-1])}, {last})")
+    if last.startswith("pad("):
+        hints.append(f"digit_chars({last}, {int(last.rsplit(',', 1)[1].strip(' )'))})")
+    lexical_form.pieces = flat
+    lexical_form.tz_pieces = groups[-1][1] if groups and groups[-1][0][0] == "tz" else []
+    return core, ghost, ranges, plan, hints
+
+
+def register_from_string_acceptance(db):
+    PR = ["C06"]
+    TIME = [("d2", "H"), ("sep", ":"), ("d2", "M"), ("sep", ":"), ("d2", "S")]
+    DATE = [("sep", "-"), ("d2", "Mo"), ("sep", "-"), ("d2", "D")]
+    T_RANGES = ["0 <= H", "H <= 24", "0 <= M", "M <= 59", "0 <= S", "S <= 59"]
+    D_RANGES = ["valid_date({y}, Mo, D)", "0 <= Mo", "Mo <= 99", "0 <= D", "D <= 99"]
+
+    def frac_value(n):
+        return f"k * {10 ** (9 - n)}" if n else "0"
+
+    def add(cls, name, tokens, extra_requires, ensures):
+        core, ghost, ranges, plan, hints = lexical_form(tokens)
+        ghost = {"w1": "str", "w2": "str", **ghost}
+        db.add(Contract(
+            f"{DT}:{cls}.from_string", variant=f"accepts-{name}",
+            params={"string": "str"}, ghost=ghost,
+            requires=ranges + extra_requires + [f"matches(w1, '{WS}')", f"matches(w2, '{WS}')", f"string == w1 + {core} + w2"],
+            hints=hints, call_variants=plan, ensures=ensures, raises={}, properties=PR,
+            note="generator parse() executed eagerly; scanner leaves by their acceptance contracts",
+        ))
+
+    for tzname, (_, _, tz_post, _, _) in TZ.items():
+        for n in range(0, 10):
+            midnight = "implies(H == 24, M == 0 and S == 0" + (" and k == 0" if n else "") + ")"
+            time_post = [("hour", "result.hour == H"), ("minute", "result.minute == M"), ("second", "result.second == S"),
+                         ("fraction-in-nanoseconds", f"result.fractional_second == {frac_value(n)}"), ("timezone", tz_post)]
+            add("XmlTime", f"{n or 'no'}-fraction-digits-{tzname}", TIME + [("frac", n), ("tz", tzname)], T_RANGES + [midnight], time_post)
+            for sign in ("positive", "negative"):
+                y = "Y" if sign == "positive" else "-Y"
+                add("XmlDateTime", f"{sign}-year-{n or 'no'}-fraction-digits-{tzname}",
+                    [("year", sign)] + DATE + [("sep", "T")] + TIME + [("frac", n), ("tz", tzname)],
+                    [r.format(y=y) for r in D_RANGES] + T_RANGES + [midnight],
+                    [("year", f"result.year == {y}"), ("month", "result.month == Mo"), ("day", "result.day == D")] + time_post)
+        for sign in ("positive", "negative"):
+            y = "Y" if sign == "positive" else "-Y"
+            add("XmlDate", f"{sign}-year-{tzname}", [("year", sign)] + DATE + [("tz", tzname)], [r.format(y=y) for r in D_RANGES],
+                [("year", f"result.year == {y}"), ("month", "result.month == Mo"), ("day", "result.day == D"), ("timezone", tz_post)])
+
+
+def register_period_acceptance(db):
+    """XmlPeriod._parse_period: every g* shape (with every timezone form, both year signs) is dispatched to the
+    right format and yields the components XSD assigns."""
+    PR = ["C06"]
+    DASH = ("sep", "-")
+    SHAPES = {
+        "gDay": ([DASH, DASH, DASH, ("d2", "D")], ["1 <= D", "D <= 31"], (None, None, "D")),
+        "gMonth": ([DASH, DASH, ("d2", "Mo")], ["1 <= Mo", "Mo <= 12"], (None, "Mo", None)),
+        "gMonthDay": ([DASH, DASH, ("d2", "Mo"), DASH, ("d2", "D")], ["valid_date(0, Mo, D)", "0 <= Mo", "Mo <= 99", "0 <= D", "D <= 99"], (None, "Mo", "D")),
+    }
+    for sign in ("positive", "negative"):
+        y = "Y" if sign == "positive" else "-Y"
+        SHAPES[f"gYear-{sign}"] = ([("year", sign)], [], (y, None, None))
+        SHAPES[f"gYearMonth-{sign}"] = ([("year", sign), DASH, ("d2", "Mo")], ["1 <= Mo", "Mo <= 12"], (y, "Mo", None))
+    for shape, (tokens, extra, (yy, mo, dd)) in SHAPES.items():
+        for tzname, (_, _, tz_post, _, _) in TZ.items():
+            core, ghost, ranges, plan, hints = lexical_form(tokens + [("tz", tzname)])
+            hints = [h for h in hints if not h.startswith("strip_core(")]
+            # the shape dispatch looks for ':' (a timezone offset) and for the last '-' before it
+            flat, tzp = lexical_form.pieces, lexical_form.tz_pieces
+            date = flat[: len(flat) - len(tzp)]
+            pads = [p for p in flat if p.startswith("pad(")]
+            hints += [f"digits_only({p}, ':')" for p in pads] + [f"digits_only({p}, '-')" for p in pads]
+            hints += [f"find_in(':', {', '.join(flat)})", f"rfind_in('-', {', '.join(flat)})", f"rfind_in('-', {', '.join(date)})"]
+            if tzp:
+                hints.append(f"substr_at(value, '', {_cat(date)}, {_cat(tzp)})")
+            post = [("year", f"result.year == {yy}" if yy else "result.year is None"),
+                    ("month", f"result.month == {mo}" if mo else "result.month is None"),
+                    ("day", f"result.day == {dd}" if dd else "result.day is None"),
+                    ("timezone", tz_post)]
+            db.add(Contract(
+                f"{DT}:XmlPeriod._parse_period", variant=f"accepts-{shape}-{tzname}",
+                params={"cls": "opaque:type", "value": "str"}, ghost=ghost,
+                requires=ranges + extra + [f"value == {core}"],
+                hints=hints, call_variants=plan, ensures=post, raises={}, properties=PR,
+                note="shape dispatch (startswith / length / find / rfind) followed by the format scanner",
+            ))
